@@ -103,6 +103,17 @@ CLAIMED = {
         note=TRUST + "The logos attributes are read from the source text of enum Token (rustc drops derive-helper attributes); assumes "
              "the generated lexer implements them.",
         design="3/C17"),
+    "C20": dict(
+        technique="whole-workspace inventories over the type-checked program and clang's C AST (statics, thread_locals, lock sites, unsafe operations, Send/Sync impls) + guard-liveness lock rule",
+        text="Decides race- and deadlock-freedom, from which schedule-independence follows: no explicit Send/Sync impl and no "
+             "Cell-like field in workspace types; every Rust static is immutable plain data or a reviewed entry (atomic name counter, "
+             "per-thread caches of precomputed types, each with its frozen accessor set), every new thread_local or interior-mutable "
+             "static is reported; every static-storage variable of the 26 compiled C translation units is const or reviewed (never "
+             "written / written only by a constructor); the inference context's mutex is taken only in Context::lock and never "
+             "re-entered, every other lock is a leaf; user-written unsafe operations are of an allowed kind. Compile-pass Send+Sync "
+             "witnesses run in the thorough tier.",
+        note=TRUST + "Assumes C jets are pure functions of their arguments apart from the inventoried globals.",
+        design="3/C20"),
 }
 
 NOT_APPLICABLE = {
